@@ -1033,14 +1033,39 @@ impl Checker {
                 continue;
             }
             let Some(job) = self.model.jobs.get(&k.0) else { continue };
+            // dependents that are reached without passing through a task that was submitted on
+            // an already dead dependency (the known late-dependent finding: such a task lost its
+            // dependencies at submit, what happens below it is a consequence)
+            let clean: BTreeSet<u32> = {
+                let mut out_set: BTreeSet<u32> = BTreeSet::new();
+                let mut changed = true;
+                while changed {
+                    changed = false;
+                    for (id, t) in &job.tasks {
+                        if out_set.contains(id) || t.dead_dep_at_submit {
+                            continue;
+                        }
+                        if t.deps.iter().any(|x| *x == k.1 || out_set.contains(x)) {
+                            out_set.insert(*id);
+                            changed = true;
+                        }
+                    }
+                }
+                out_set
+            };
             for d in job.dependents(k.1) {
                 let dt = &job.tasks[&d];
                 if !dt.state.is_terminal() {
+                    let key = if clean.contains(&d) {
+                        what.to_string()
+                    } else {
+                        format!("{what}-through-late-dependent")
+                    };
                     fnd(
                         out,
                         "C03",
                         "dependent-survives-dead-dependency",
-                        *what,
+                        &key,
                         format!(
                             "task {k:?} {what} at step {step} but its dependent {d} is still {}",
                             dt.state.kind()
